@@ -14,8 +14,44 @@ SLOTS = ['b0', 'b1', 'b2']
 
 
 # ---------------------------------------------------------------- generator
+def gen_sp_case(rng, flavor):
+    """savepoint-heavy programs: writes / savepoints / rollbacks (also repeated and to older savepoints) on
+    one or two blobs, some of them created inside the transaction"""
+    ops = []
+    small = lambda: bytes(rng.randrange(97, 123) for _ in range(rng.randrange(0, 6))).hex()   # noqa: E731
+    have = []
+    if rng.random() < 0.7:
+        ops += [['new', 'b0', small()], ['commit', None]]
+        have.append('b0')
+    for _ in range(rng.choice([1, 2, 3])):
+        nsp = 0
+        for _ in range(rng.randrange(4, 14)):
+            r = rng.random()
+            if r < 0.12 and len(have) < 2:
+                s = 'b1' if 'b0' in have else 'b0'
+                ops.append(['new', s, small()])
+                have.append(s)
+            elif r < 0.5 and have:
+                ops.append(['write', rng.choice(have), rng.choice(['w', 'a', 'r+']), small()])
+            elif r < 0.56 and have:
+                ops.append(['consume', rng.choice(have), small()])
+            elif r < 0.8:
+                ops.append(['sp'])
+                nsp += 1
+            elif nsp:
+                ops.append(['rollback', rng.randrange(nsp)])
+            elif r < 0.9:
+                ops.append(['plain', rng.randrange(5)])
+        ops.append(rng.choice([['commit', None], ['commit', None], ['abort'], ['failcommit', 'vote', 0]]))
+        have = [s for s in have]          # optimistic
+    ops.append(['commit', None])
+    return dict(level='db', flavor=flavor, keep_old=False, gc=True, copy=False, ops=ops)
+
+
 def gen_case(rng, flavor=None, size=None):
     flavor = flavor or rng.choice(['fs', 'fs', 'wrap'])
+    if rng.random() < 0.2:
+        return gen_sp_case(rng, flavor)
     size = size or rng.choice([8, 14, 22, 32])
     ops = []
     # symbolic view (optimistic; the runner skips what turns out not to apply)
@@ -67,10 +103,19 @@ def gen_case(rng, flavor=None, size=None):
                 ops.append(['unlink', s])
                 cur[s] = 'unlinked'
                 clean = False
-        elif r < 0.62:
+        elif r < 0.61 and [s for s in SLOTS if com.get(s) == 'linked']:
+            q = rng.random()
+            if q < 0.6:
+                ops.append(['c1write', rng.choice([s for s in SLOTS if com.get(s) == 'linked']),
+                            rng.choice(['w', 'a', 'r+']), gen_data(rng)])
+            elif q < 0.85:
+                ops.append(['c1commit'])
+            else:
+                ops.append(['c1abort'])
+        elif r < 0.66:
             ops.append(['sp'])
             sps.append((dict(cur), set(created)))
-        elif r < 0.67 and sps:
+        elif r < 0.70 and sps:
             i = rng.randrange(len(sps))
             ops.append(['rollback', i])
             cur, cr = dict(sps[i][0]), set(sps[i][1])
@@ -88,9 +133,14 @@ def gen_case(rng, flavor=None, size=None):
         elif r < 0.83:
             ops.append(['abort'])
             end_txn(False)
-        elif r < 0.91:
+        elif r < 0.89:
             ops.append(['failcommit', rng.choice(['begin', 'commit', 'commit', 'vote', 'vote']), rng.choice([0, 0, 1])])
             end_txn(False)
+        elif r < 0.91:
+            # raw fault (OSError) at the k-th mutating file operation of the commit; may or may not fail it
+            ops.append(['faultcommit', rng.randrange(1, 9)])
+            end_txn(True)
+            ncommit += 1
         elif r < 0.96 and ncommit and flavor == 'fs':
             if not clean:
                 ops.append(['commit', None])
@@ -194,11 +244,32 @@ def run_case(case, root):
             txns = []                   # dict(tid, oids={oid: slot}, root_before=dict|None)
             packed_to = [0]
             C = dict(bytes={}, linked={})        # committed: slot -> bytes ; slot -> oid
-            V = dict(bytes={}, linked=set(), dirty=set(), created=set(), root=False)
+            V = dict(bytes={}, linked=set(), dirty=set(), created=set(), root=False, since_sp=set())
             sps = []                    # [(savepoint, snapshot)]
+            faulted = [False]
+            # a second long-lived connection with its own uncommitted working copies
+            tm1 = transaction.TransactionManager()
+            c1 = db.open(tm1)
+            W1 = dict(bytes={}, objs={}, snap_bytes={}, snap_linked={})
+            F0, F1 = set(), set()       # oids committed by others since connection 0's / 1's transaction began
             ev_mark = [len(env.rec.events), 0]
 
+            objlayer = not any(isinstance(x, str) and x.startswith('R') for o in case['ops'] for x in o
+                               if o[0] in ('new', 'write', 'consume', 'c1write')) and \
+                not any(o[0] == 'commit' and o[1] and o[1][1].startswith('R') for o in case['ops'])
+
+            def hexs(b):
+                return b.hex() if b else '-'
+
+            def emit(line, obs):
+                if objlayer:
+                    env._emit(line, obs)
+
             def reset_view():
+                emit('sp.reset', 'ok')
+                for sl in sorted(C['bytes']):
+                    emit('obj.load %s %s' % (sl[1], hexs(C['bytes'][sl])), 'ok')
+                V['since_sp'] = set()
                 V['bytes'] = dict(C['bytes'])
                 V['linked'] = set(C['linked'])
                 V['dirty'], V['created'], V['root'] = set(), set(), False
@@ -265,7 +336,7 @@ def run_case(case, root):
                         if after == 'pack':
                             bad('C13:pack-keeps-removed-blob',
                                 'file %r of a revision removed by pack is still there' % (k,))
-                        elif after.startswith('failcommit') or after in ('abort', 'conflict', 'undo-failed'):
+                        elif after.startswith('failcommit') or after in ('abort', 'conflict', 'undo-failed', 'c1abort'):
                             sig = 'C13:abort-before-vote-leaves-blob'
                             if after in ('failcommit-vote-0',):
                                 sig = 'C13:abort-after-vote-leaves-blob'
@@ -289,6 +360,15 @@ def run_case(case, root):
                                 'raised %s: %s' % (slot, after, type(e).__name__, str(e)[:120]))
                             continue
                         want = C['bytes'][slot]
+                        try:
+                            with rx[slot].open('c') as f:          # the committed file itself
+                                data_c = f.read()
+                            if data_c != data:
+                                bad('C13:second-connection-wrong-bytes', "open('c') of %s reads %r, open('r') %r"
+                                    % (slot, data_c[:40], data[:40]))
+                        except Exception as e:
+                            bad('C13:read-error', "open('c') of committed blob %s after %s raised %s: %s"
+                                % (slot, after, type(e).__name__, str(e)[:120]))
                         if data != want:
                             mine = V['bytes'].get(slot)
                             sig = 'C13:uncommitted-visible' if data == mine and mine != want else \
@@ -315,6 +395,23 @@ def run_case(case, root):
                             'C13:working-copy-bytes'
                         bad(sig, 'connection reads %r for %s after %s, expected %r'
                             % (data[:40], slot, after, V['bytes'][slot][:40]))
+
+            def check_c1_view(after):
+                for slot, want in sorted(W1['bytes'].items()):
+                    try:
+                        data = read_blob(W1['objs'][slot])
+                    except Exception as e:
+                        bad('C13:read-error', 'second connection reading its working copy of %s after %s raised %s: %s'
+                            % (slot, after, type(e).__name__, str(e)[:120]))
+                        continue
+                    if data != want:
+                        bad('C13:working-copy-bytes', 'second connection reads %r for its working copy of %s after %s, '
+                            'expected %r' % (data[:40], slot, after, want[:40]))
+
+            def c1_drop():
+                tm1.abort()
+                W1['bytes'].clear()
+                W1['objs'].clear()
 
             def check_history(after):
                 """historical snapshots: db.open(at=tid) reads the bytes of the revision current then"""
@@ -350,6 +447,7 @@ def run_case(case, root):
                 check_disk(after)
                 check_other_connection(after)
                 check_own_view(after)
+                check_c1_view(after)
                 check_history(after)
                 left = [x for x in env.tmp_listing() if x.startswith('savepoints')]
                 if left:
@@ -432,6 +530,7 @@ def run_case(case, root):
                     tid = u64(db.lastTransaction())
                     last_tid[0] = tid
                     oid = C['linked'][slot]
+                    F1.add(oid)
                     files[(oid, tid)] = data
                     hist.setdefault(oid, []).append((tid, data))
                     C['bytes'][slot] = data
@@ -454,6 +553,9 @@ def run_case(case, root):
                         b = Blob()
                         with b.open('w') as f:
                             f.write(data)
+                        emit('obj.new %s' % slot[1], 'ok')
+                        emit('obj.write %s w %s' % (slot[1], hexs(data)), hexs(read_blob(b)))
+                        V['since_sp'].add(slot)
                         r0[slot] = b
                         objs[slot] = b
                         V['bytes'][slot] = data
@@ -471,6 +573,7 @@ def run_case(case, root):
                             with b.open(op[2]) as f:
                                 f.write(data)
                             V['bytes'][slot] = apply_mode(op[2], V['bytes'][slot], data)
+                            emit('obj.write %s %s %s' % (slot[1], op[2], hexs(data)), hexs(read_blob(b)))
                         else:
                             data = decode_data(op[2])
                             fn = os.path.join(scratch, 'consume%d' % len(env.rec.events))
@@ -478,7 +581,9 @@ def run_case(case, root):
                                 f.write(data)
                             b.consumeFile(fn)
                             V['bytes'][slot] = data
+                            emit('obj.consume %s %s' % (slot[1], hexs(data)), hexs(read_blob(b)))
                         V['dirty'].add(slot)
+                        V['since_sp'].add(slot)
                     elif kind == 'plain':
                         r0['p']['k'] = op[1]
                     elif kind == 'unlink':
@@ -499,6 +604,11 @@ def run_case(case, root):
                         V['root'] = True
                     elif kind == 'sp':
                         sp = tm0.savepoint()
+                        for sl in sorted(V['since_sp']):
+                            if sl in objs:
+                                emit('sp.store %s 1' % sl[1], 'ok')
+                        V['since_sp'] = set()
+                        emit('sp.take %d' % len(sps), 'ok')
                         sps.append((sp, snap()))
                         guard()
                         check_disk('savepoint')
@@ -514,23 +624,35 @@ def run_case(case, root):
                             objs.pop(slot, None)
                         V['bytes'], V['linked'], V['dirty'], V['created'], V['root'] = \
                             dict(sn[0]), set(sn[1]), set(sn[2]), set(sn[3]), sn[4]
+                        V['since_sp'] = set()
+                        emit('sp.rollback %d' % op[1], 'ok')
+                        for sl in sorted(V['linked']):
+                            if sl in objs:
+                                try:
+                                    got = hexs(read_blob(objs[sl]))
+                                except Exception as e:
+                                    got = errname(e)
+                                emit('sp.load %s %s' % (sl[1], hexs(C['bytes'].get(sl, b''))), got)
                         guard()
                         check_disk('rollback')
                         check_own_view('rollback')
                     elif kind == 'commit':
-                        conflict = False
+                        conflict = any(s2 in objs and objs[s2]._p_oid is not None and u64(objs[s2]._p_oid) in F0
+                                       for s2 in V['dirty'])
                         if op[1] is not None:
                             slot, data = op[1][0], decode_data(op[1][1])
                             if slot in C['linked'] and slot in C['bytes']:
                                 interloper(slot, data)
-                                conflict = slot in V['dirty']
+                                conflict = conflict or slot in V['dirty']
                                 if slot not in V['dirty'] and slot in V['bytes']:
                                     V['bytes'][slot] = data
                         stored_blob = bool(V['dirty'] | V['created'])
+                        mine = {u64(objs[s2]._p_oid) for s2 in V['dirty'] if s2 in objs and objs[s2]._p_oid}
                         try:
                             tm0.commit()
                         except Exception as e:
                             guard()
+                            F0.clear()
                             cnt('commit:' + errname(e))
                             tm0.abort()
                             if stored_blob:
@@ -544,6 +666,8 @@ def run_case(case, root):
                             bad('C13:lost-conflict', 'commit succeeded although another connection had committed '
                                 'the same blob')
                         guard()
+                        F0.clear()
+                        F1.update(mine)
                         tid = u64(db.lastTransaction())
                         if tid > last_tid[0]:
                             committed(tid)
@@ -552,6 +676,7 @@ def run_case(case, root):
                         boundary('commit')
                     elif kind == 'abort':
                         tm0.abort()
+                        F0.clear()
                         aborted()
                         boundary('abort')
                     elif kind == 'failcommit':
@@ -566,16 +691,116 @@ def run_case(case, root):
                         except Exception as e:
                             cnt('failcommit:' + errname(e))
                         tm0.abort()
+                        F0.clear()
                         if stored_blob and not (op[1] == 'begin' or (op[1] == 'commit' and op[2])):
                             nontrivial[0] = True              # fails after storeBlob
                         aborted()
                         boundary('failcommit-%s-%d' % (op[1], op[2]))
+                    elif kind == 'faultcommit':
+                        stored_blob = bool(V['dirty'] | V['created'])
+                        mine = {u64(objs[s2]._p_oid) for s2 in V['dirty'] if s2 in objs and objs[s2]._p_oid}
+                        expect_conflict = any(o in F0 for o in mine)
+                        env.rec.nmut, env.rec.fail_at = 0, op[1]
+                        nfault = sum(1 for e in env.rec.events if e[0] == 'fault')
+                        try:
+                            try:
+                                tm0.commit()
+                                ok = True
+                            finally:
+                                env.rec.fail_at = None
+                        except Exception as e:
+                            ok = False
+                            cnt('faultcommit:' + errname(e))
+                            tm0.abort()
+                        fired = sum(1 for e in env.rec.events if e[0] == 'fault') > nfault
+                        if fired:
+                            faulted[0] = True
+                            cnt('fault-fired')
+                        guard()
+                        F0.clear()
+                        if ok:
+                            F1.update(mine)
+                            tid = u64(db.lastTransaction())
+                            if tid > last_tid[0]:
+                                committed(tid)
+                            else:
+                                reset_view()
+                            boundary('commit')
+                        else:
+                            if stored_blob:
+                                nontrivial[0] = True
+                            aborted()
+                            boundary('failcommit-fault')
+                            if not fired and not expect_conflict:
+                                bad('C13:unexpected-commit-failure', 'commit failed without an injected fault')
+                    elif kind == 'c1write':
+                        slot = op[1]
+                        if not W1['bytes']:
+                            tm1.abort()                       # new snapshot for connection 1
+                            F1.clear()
+                            W1['snap_bytes'], W1['snap_linked'] = dict(C['bytes']), dict(C['linked'])
+                        if slot not in W1['snap_linked'] or slot not in W1['snap_bytes']:
+                            cnt('skip')
+                            continue
+                        data = decode_data(op[3])
+                        b = W1['objs'].get(slot)
+                        if b is None:
+                            b = W1['objs'][slot] = c1.root()[slot]
+                        base = W1['bytes'].get(slot, W1['snap_bytes'][slot])
+                        with b.open(op[2]) as f:
+                            f.write(data)
+                        W1['bytes'][slot] = apply_mode(op[2], base, data)
+                        guard()
+                        check_disk(kind)
+                        check_c1_view(kind)
+                        check_own_view(kind)
+                        check_other_connection(kind)
+                    elif kind == 'c1abort':
+                        c1_drop()
+                        boundary('c1abort')
+                    elif kind == 'c1commit':
+                        if not W1['bytes']:
+                            cnt('skip')
+                            continue
+                        oids1 = {slot: W1['snap_linked'][slot] for slot in W1['bytes']}
+                        conflict = any(o in F1 for o in oids1.values())
+                        try:
+                            tm1.commit()
+                        except Exception as e:
+                            guard()
+                            cnt('c1commit:' + errname(e))
+                            c1_drop()
+                            nontrivial[0] = True              # fails after storeBlob (or at its store)
+                            boundary('conflict')
+                            if not conflict:
+                                bad('C13:unexpected-commit-failure', 'second connection: commit raised %s: %s'
+                                    % (type(e).__name__, str(e)[:100]))
+                            continue
+                        guard()
+                        if conflict:
+                            bad('C13:lost-conflict', 'second connection committed over a newer revision of the blob')
+                        tid = u64(db.lastTransaction())
+                        last_tid[0] = tid
+                        for slot, oid in oids1.items():
+                            data = W1['bytes'][slot]
+                            files[(oid, tid)] = data
+                            hist.setdefault(oid, []).append((tid, data))
+                            if C['linked'].get(slot) == oid or (slot in objs and objs[slot]._p_oid == p64(oid)):
+                                C['bytes'][slot] = data
+                            F0.add(oid)
+                            nontrivial[0] = True              # rewritten
+                        txns.append(dict(tid=tid, oids={o: s2 for s2, o in oids1.items()}, root_before=None,
+                                         linked_after=dict(C['linked'])))
+                        W1['bytes'].clear()
+                        W1['objs'].clear()
+                        boundary('c1commit')
                     elif kind == 'undo':
                         cands = [t for t in txns if t['tid'] > packed_to[0]]
                         if flavor == 'wrap' or not cands or V['dirty'] or V['created'] or V['root']:
                             cnt('skip')               # MappingStorage has no undo
                             continue
                         t = cands[-min(op[1], len(cands))]
+                        c1_drop()
                         tm0.abort()
                         db.undo(encodebytes(p64(t['tid'])).rstrip(), tm0.get())
                         try:
@@ -594,6 +819,7 @@ def run_case(case, root):
                             cnt('skip')
                             continue
                         tm0.abort()
+                        c1_drop()
                         tids = [t['tid'] for t in txns]
                         i = min(op[1], len(tids))
                         tt = TimeStamp(p64(tids[-1 - i] if i < len(tids) else tids[0])).timeTime()
@@ -609,6 +835,10 @@ def run_case(case, root):
                             del files[k]
                             gone.add(k)
                             nontrivial[0] = True              # packed
+                        if flavor == 'wrap' and env.lines and env.lines[-1].startswith('pack '):
+                            on_disk = env.scan()[0]
+                            cnt('wrap-pack:' + ('exact' if all(k in on_disk for k in files) else
+                                                'removes-file-of-kept-revision'))
                         for o, h in hist.items():
                             for t, b in h:
                                 if (o, t) not in allrecs:
@@ -640,9 +870,19 @@ def run_case(case, root):
                         check_disk(kind)
                         check_own_view(kind)
                         check_other_connection(kind)
-                except Boom:
-                    raise
-            tm0.abort()
+                except Exception as e:
+                    # no operation of a generated program raises on the unchanged tree: whatever this is, the
+                    # blob could not be read / written / committed as the property demands
+                    import traceback
+                    tb = traceback.extract_tb(e.__traceback__)
+                    where = '%s:%d' % (os.path.basename(tb[-1].filename), tb[-1].lineno) if tb else '?'
+                    bad('C13:operation-raised', 'op %r raised %s: %s (at %s)' % (op, type(e).__name__, str(e)[:120], where))
+                    break
+            try:
+                tm0.abort()
+                tm1.abort()
+            except Exception:
+                pass
             extra = ([], [])
             if case.get('copy'):
                 cl, cr, cp = copy_to_fresh(env, root, dict(files))
@@ -652,6 +892,9 @@ def run_case(case, root):
                 cnt('copy')
         finally:
             env.close()
+    if faulted[0]:
+        # the model has no raw-fault operation: a faulted history is judged by the oracle alone
+        return dict(lines=[], real=[], problems=problems, nontrivial=nontrivial[0], stats=stats)
     return dict(lines=['reset ' + flavor] + env.lines + extra[0], real=['ok'] + env.real + extra[1],
                 problems=problems,
                 nontrivial=nontrivial[0], stats=stats)
